@@ -27,6 +27,7 @@ type Keys struct {
 	buf       []byte      // Keys read and waiting to be used.
 	matched   []rune      // Keys that have been successfully matched against a bind.
 	macroKeys []rune      // Keys that have been fed by a macro.
+	partial   []byte      // First bytes of a character cut by the end of a read.
 	mustWait  bool        // Keys are in the stack, but we must still read stdin.
 	waiting   bool        // Currently waiting for keys on stdin.
 	reading   bool        // Currently reading keys out of the main loop.
@@ -86,8 +87,9 @@ func WaitAvailableKeys(keys *Keys, cfg *inputrc.Config) error {
 		default:
 			// When convert-meta is on, any meta-prefixed bind should
 			// be stripped and replaced with an escape meta instead.
-			if keys.cfg != nil && keys.cfg.GetBool("convert-meta") {
-				keyBuf = []byte(strutil.ConvertMeta([]rune(string(keyBuf))))
+			keyBuf = keys.convertInput(keyBuf)
+			if len(keyBuf) == 0 {
+				continue
 			}
 
 			keys.mutex.RLock()
@@ -97,6 +99,50 @@ func WaitAvailableKeys(keys *Keys, cfg *inputrc.Config) error {
 
 		return nil
 	}
+}
+
+// convertInput prepares keys that have just been read on the terminal for dispatch, in a
+// way that does not depend on how the terminal has cut its input into reads: a multibyte
+// character cut by the end of a read is kept until its remaining bytes arrive, and with
+// convert-meta on, each complete character in the Meta range is replaced with its escape
+// prefixed equivalent. Bytes that are not valid UTF-8 are passed through unchanged.
+func (k *Keys) convertInput(keyBuf []byte) []byte {
+	if len(k.partial) > 0 {
+		keyBuf = append(k.partial, keyBuf...)
+		k.partial = nil
+	}
+
+	// Is the end of the buffer the beginning of a character ?
+	for size := 1; size < utf8.UTFMax && size <= len(keyBuf); size++ {
+		tail := keyBuf[len(keyBuf)-size:]
+		if utf8.RuneStart(tail[0]) {
+			if tail[0] >= utf8.RuneSelf && !utf8.FullRune(tail) {
+				k.partial = append([]byte{}, tail...)
+				keyBuf = keyBuf[:len(keyBuf)-size]
+			}
+
+			break
+		}
+	}
+
+	if k.cfg == nil || !k.cfg.GetBool("convert-meta") {
+		return keyBuf
+	}
+
+	converted := make([]byte, 0, len(keyBuf))
+
+	for len(keyBuf) > 0 {
+		char, size := utf8.DecodeRune(keyBuf)
+		if size > 1 && inputrc.IsMeta(char) {
+			converted = append(converted, []byte(strutil.ConvertMeta([]rune{char}))...)
+		} else {
+			converted = append(converted, keyBuf[:size]...)
+		}
+
+		keyBuf = keyBuf[size:]
+	}
+
+	return converted
 }
 
 // PopKey is used to pop a key off the key stack without
